@@ -246,6 +246,9 @@ func (s *Solver) Check(assertions []*Term, modelVars []*Term) (Result, []uint64)
 			model = nil
 		}
 	}
+	if s.Log != nil {
+		fmt.Fprintf(s.Log, "; => %v (%.2fs)\n", res, time.Since(t0).Seconds())
+	}
 	s.send("(pop 1)\n")
 	switch res {
 	case Sat:
